@@ -102,6 +102,24 @@ FailedChangesNothing == [][ last'.res \in {"Refused", "Err"} => st' = st ]_vars
 WriteChangesFp == [][ (last'.a = "Write" /\ last'.res = "Ok" /\ Contents(st', last'.x) # Contents(st, last'.x)) =>
                         FpResultV(st', last'.x) # FpResultV(st, last'.x) ]_vars
 
+(* the same four action properties as ONE action constraint with named assertions: TLC then
+   checks them on every transition without building the liveness graph (much faster);
+   the engine reports the name carried by the failing Assert as the violated property.   *)
+WritesLocalStep ==
+    last'.a \in {"Write", "SetAttr"} =>
+        \A x \in (st.live \cap st'.live) \ Entity(st, last'.x) : ViewOf(st', x) = ViewOf(st, x)
+PureOpsStep ==
+    last'.a \in {"NewVec", "ShareVec", "Copy", "ReadFpV", "ReadFpT", "NewTable", "ColView", "Lookup", "Drop", "DropTuple", "DropTable"} =>
+        \A x \in st.live \cap st'.live : ViewOf(st', x) = ViewOf(st, x)
+FailedStep == last'.res \in {"Refused", "Err"} => st' = st
+WriteChangesFpStep ==
+    (last'.a = "Write" /\ last'.res = "Ok" /\ Contents(st', last'.x) # Contents(st, last'.x)) =>
+        FpResultV(st', last'.x) # FpResultV(st, last'.x)
+StepProps == /\ Assert(WritesLocalStep, "WritesLocal")
+             /\ Assert(PureOpsStep, "PureOps")
+             /\ Assert(FailedStep, "FailedChangesNothing")
+             /\ Assert(WriteChangesFpStep, "WriteChangesFp")
+
 (* ---------------- emission of replayable transitions ---------------- *)
 Proj(Sx) == [live |-> Sx.live, held |-> Sx.held, store |-> Sx.store, heap |-> Sx.heap, usertup |-> Sx.usertup,
              kind |-> Sx.kind, nullable |-> Sx.nullable, name |-> Sx.name,
